@@ -1,9 +1,50 @@
-//! Development aid (not a check).
+//! Development aids and scheduler self-tests (not checks).
 pub(crate) fn run() -> i32 {
     match std::env::var("SMOKE").as_deref() {
         Ok("c08") => crate::verif::props::c08::debug_case(),
         Ok("c05") => crate::verif::props::c05::debug_case(),
+        Ok("sched-benign") => return sched_selftest(false),
+        Ok("sched-deadlock") => return sched_selftest(true),
         _ => crate::verif::props::c06::debug_case(),
     }
     0
+}
+
+/// Two threads and two plain mutexes without lock points.
+/// benign: T0 is parked at a hook point while it holds A, T1 wants A: the scheduler has to notice
+/// that T1 sleeps, force the turn back to T0 and both finish (exit 0 if exactly that happened).
+/// deadlock: T0 holds A and wants B, T1 holds B and wants A: the hang handler has to be called
+/// (exit 42 from the handler).
+fn sched_selftest(deadlock: bool) -> i32 {
+    use std::sync::{Arc, Mutex};
+    let a = Arc::new(Mutex::new(0u32));
+    let b = Arc::new(Mutex::new(0u32));
+    crate::verif::sched::set_hang_handler(Some(Arc::new(|log: &[String]| {
+        println!("hang handler called: {:?}", log);
+        std::process::exit(42);
+    })));
+    let (a0, b0, a1, b1) = (Arc::clone(&a), Arc::clone(&b), Arc::clone(&a), Arc::clone(&b));
+    let t0: Box<dyn FnOnce() + Send> = Box::new(move || {
+        let mut ga = a0.lock().unwrap();
+        crate::verif_hooks::point("selftest", "T0 holds A");
+        if deadlock {
+            let mut gb = b0.lock().unwrap();
+            *gb += 1;
+        }
+        *ga += 1;
+    });
+    let t1: Box<dyn FnOnce() + Send> = Box::new(move || {
+        let mut gb = b1.lock().unwrap();
+        crate::verif_hooks::point("selftest", "T1 holds B");
+        let mut ga = a1.lock().unwrap();
+        *ga += 1;
+        *gb += 1;
+    });
+    let out = crate::verif::sched::run_pair(0, vec![(0, 0)], t0, t1);
+    println!("forced switches {} deadlock {} log {:?}", out.forced_switches, out.deadlock, out.log);
+    if !deadlock && out.forced_switches == 1 && !out.deadlock && *a.lock().unwrap() == 2 {
+        0
+    } else {
+        1
+    }
 }
